@@ -131,7 +131,9 @@ Lemma frame_lines_text : forall c s, lines_ok (cur s) = true -> lines_ok (lr s) 
   lines_ok (fst (frame_lines c s)) = true.
 Proof.
   intros c s Hc Hl. unfold frame_lines. destruct (c_progress c).
-  - unfold progress_lines. destruct (grow_shape _ _ _ _) as [w h]. cbn [fst].
+  - assert (Hr : lines_ok (progress_rows (c_prog_crop c) (c_H c) (lr s)) = true).
+    { unfold progress_rows. destruct (c_prog_crop c); [apply lines_firstn|]; now apply lines_map_pad. }
+    unfold progress_lines. destruct (grow_shape _ _ _ _) as [w h]. cbn [fst].
     apply lines_app; [now apply lines_map_pad|].
     unfold lines_ok. apply forallb_forall. intros x Hx. apply repeat_spec in Hx. subst x. now apply text_repeat.
   - cbn [fst]. unfold fit_live. destruct (max_height c s <? zlen (cur s)); [|assumption].
